@@ -292,11 +292,11 @@ type bSys struct {
 	fa   *fullavail.ShareAvailability
 	srcs map[string]*bSource
 
-	mu      sync.Mutex
-	lcall   *bCall
-	gcall   *bCall
-	reports []bReport
-	note    string // first problem noticed inside a fake / recorder
+	mu       sync.Mutex
+	lcall    *bCall
+	gcall    *bCall
+	reports  []bReport
+	note     string // first problem noticed inside a fake / recorder
 	starting bool
 
 	phase    int
@@ -306,7 +306,7 @@ type bSys struct {
 	queue []bAnn
 	// what the explorer answered for queue[0]
 	fetchAns, syncAns string
-	actor             string // who runs because of the event being applied: listener | avail | ""
+	actor             string            // who runs because of the event being applied: listener | avail | ""
 	fired             map[string]string // actor -> fault kind that fired during the current event
 	armed             string
 
